@@ -11,7 +11,7 @@ import (
 func handValues() []cty.Value {
 	var out []cty.Value
 	for _, s := range []string{"", "$", "%", "${", "%{", "$${", "%%{", "$$${", "$$", "$${}", "a$", "a%", "${a}", "%{if a}b%{endif}", "$%{", "%${", "\"", "\\", "\\n", "\\u00e9", "\\${",
-		"\x00", "\x7f", "\u0085", "\u00a0", "\u2028", "\u2029", "\ufeff", "\ufffe", "\U0010ffff", "\U0001F600", "e\u0301", "\u1100\u1161", "\U0002F800", "a\nb", "a\r\nb", "tab\t", "<<EOT\nx\nEOT\n"} {
+		"\x00", "\x7f", "\u0085", "\u00a0", "\u2028", "\u2029", "\ufeff", "\ufffe", "\U0010ffff", "\U0001F600", "e\u0301", "\u1100\u1161", "\U0002F800", "a\nb", "a\r\nb", "tab\t", "<<EOT\nx\nEOT\n", " a\n\n", "\n b\n", "  first paragraph\n\n  second paragraph\n", "a\n  b\n", "  a\n  b\n", "EOT\n", " x\n EOT\n"} {
 		out = append(out, cty.StringVal(s))
 	}
 	for _, k := range []string{"for", "if", "in", "null", "true", "false", "else", "endif", "endfor"} {
